@@ -24,6 +24,7 @@ import math
 
 from .. import common as cm
 from .. import hydrogen as hg
+from . import c15 as k15
 
 PID = "C16"
 PROOF_FILES = ["theories/Props/C16.v", "theories/Proofs/HydroWrenchProofs.v", "theories/Proofs/HydroBroad.v"]
@@ -69,7 +70,7 @@ def gen_case(rng, k, tier):
     mode = ["random", "random", "lattice", "stacked", "random", "separated", "stacked", "random"][k % 8]
     s1, s2 = hg.body_pair(rng, mode, fine=(tier != "quick" and rng.random() < 0.2))
     c = dict(b1=s1, b2=s2, g=hg.rigid_motion(rng, 1.0, lattice=(k % 16 == 3)), mode=mode, cls=mode, broad=(k % 2 == 0),
-             max_rows=400)
+             max_rows=400, details_k=5 if tier == "quick" else 16)
     if k % 4 == 1:
         # a third body near body 1 for interleaved calls
         s3, _ = hg.body_pair(rng, "random")
@@ -252,7 +253,29 @@ def run(tier, seed, replay=None):
         n = 63 if tier == "quick" else 480
         for k in range(n):
             cases.append(gen_case(R.rng, k, tier))
-    res = run_workers(cases, "impl")
+    from concurrent.futures import ThreadPoolExecutor
+    # two small cases interpreted (NUMBA_DISABLE_JIT=1) under coverage measurement, concurrently
+    small = [c for c in cases if c["b1"]["shape"] in ("cube", "box") and c["b2"]["shape"] in ("cube", "box")][:2]
+    small += [c for c in cases if c.get("mode") == "separated" and c["b1"]["shape"] in ("cube", "box", "sphere")][:1]
+    with ThreadPoolExecutor(2) as ex:
+        fcov = ex.submit(cm.run_impl, PID, "c16", dict(cases=[dict(c, broad=True) for c in small], trace=True), 1500, False, "cov")
+        res = run_workers(cases, "impl")
+        rc = fcov.result()
+    if rc["status"] == "ok" and rc["result"].get("coverage"):
+        rep = {}
+        for f, v in rc["result"]["coverage"].items():
+            rep[f] = dict(statements=v["statements"], lines_reached=v["statements"] - len(v["missing_lines"]), missing_lines=v["missing_lines"],
+                          branch_arcs=v["branches"], arcs_reached=v["branches"] - v["missing_branches"], missing_arcs=v["missing_arcs"])
+        R.cov["implementation_coverage"] = rep
+        # the interpreted run must agree with the compiled one
+        for c, r in zip(small, rc["result"]["results"]):
+            j = res[cases.index(c)]
+            if r and j and "exc" not in r and "exc" not in j:
+                sc = max(1e-300, max(abs(x) for x in j["base"]["w12"] + j["base"]["w21"]))
+                if r["base"]["inter"] != j["base"]["inter"] or max(abs(a - b) for a, b in zip(r["base"]["w12"] + r["base"]["w21"], j["base"]["w12"] + j["base"]["w21"])) > 1e-6 * sc:
+                    R.corr_broken.append("interpreted and compiled contact_forces disagree")
+    else:
+        R.cov["implementation_coverage"] = "coverage run failed: " + str(rc.get("log", ""))[-300:]
     R.cov["evaluations"] = len(cases)
     stats = dict(worst={}, f17_inputs=0, grazing_flag_changes=0, broad_cases=0, broad_pairs=0, wrench_model_compared=0,
                  express_model_compared=0, max_wrench_dev=0.0, max_express_dev=0.0)
@@ -267,6 +290,72 @@ def run(tier, seed, replay=None):
             if len(R.corr_broken) < 6:
                 R.corr_broken.append(d)
             R.notes.append(dict(correspondence_diff=d, case=c))
+    # return_details=True: the contact surface in the world frame must satisfy the polygon properties there
+    # (poly_cert, Checker/Poly.v) and be the rigid image of the surface computed in body 2's frame
+    cert_exprs, cert_idx = [], []
+    KEYS = sorted(["contact_polygons", "contact_polygon_triangles", "contact_planes", "intersecting_tetrahedra1",
+                   "intersecting_tetrahedra2", "contact_coms", "contact_forces", "contact_areas", "pressures", "contact_point"])
+    for i, (c, r) in enumerate(zip(cases, res)):
+        if r is None or "exc" in r or "details" not in r:
+            continue
+        dt = r["details"]
+        if dt["inter"] != r["base"]["inter"] or dt["w12"] != r["base"]["w12"] or dt["w21"] != r["base"]["w21"]:
+            R.corr_broken.append("contact_forces(return_details=True) returns other wrenches than contact_forces()")
+        if not dt["inter"]:
+            if dt["keys"]:
+                R.failure("details of a non-intersecting pair are not empty", c, site="ContactSurface.make_details")
+            continue
+        if dt["keys"] != KEYS:
+            R.failure(f"details keys {dt['keys']}", c, site="ContactSurface.make_details")
+            continue
+        stats["details_cases"] = stats.get("details_cases", 0) + 1
+        T = dt["frame2world"]
+        Ls = 1.0 + max(abs(x) for ct in dt["contacts"] for p in ct["t1"] + ct["t2"] for x in p)
+        fs = max(1e-300, max(norm(ct["force"]) for ct in dt["contacts"]))
+        if dev(dt["sum_force"], r["base"]["w21"][:3]) > 1e-9 * max(1e-300, r["internals"].get("force_abs_sum", 0.0)):
+            R.failure(f"sum of the world-frame contact forces {dt['sum_force']} is not the force on body 1 {r['base']['w21'][:3]}", c,
+                      site="ContactSurface.make_details")
+        if dt["area_sum"] > 0 and dev(dt["contact_point"], [x / dt["area_sum"] for x in dt["weighted_coms"]]) > 1e-9 * Ls:
+            R.failure("contact_point is not the area-weighted mean of the contact centres", c, site="ContactSurface.make_details")
+        for ct, lc in zip(dt["contacts"], dt["local"]):
+            want_poly = [[sum(T[a][b] * p[b] for b in range(3)) + T[a][3] for a in range(3)] for p in lc["poly"]]
+            want_f = rot_apply(T, lc["force"])
+            want_n = rot_apply(T, lc["plane"][:3])
+            want_com = [sum(T[a][b] * lc["com"][b] for b in range(3)) + T[a][3] for a in range(3)]
+            want_d = lc["plane"][3] + sum(want_n[a] * T[a][3] for a in range(3))
+            bad = None
+            if len(ct["poly"]) != len(want_poly) or max(dev(a, b) for a, b in zip(ct["poly"], want_poly)) > 1e-11 * Ls:
+                bad = "polygon"
+            elif dev(ct["force"], want_f) > 1e-11 * fs:
+                bad = "force"
+            elif dev(ct["plane"][:3], want_n) > 1e-11 or abs(ct["plane"][3] - want_d) > 1e-10 * Ls:
+                bad = "plane"
+            elif dev(ct["com"], want_com) > 1e-11 * Ls or abs(ct["area"] - lc["area"]) > 0.0:
+                bad = "centre/area"
+            elif ct["area"] > 0 and abs(ct["pressure"] - norm(ct["force"]) / ct["area"]) > 1e-9 * max(1e-300, ct["pressure"]):
+                bad = "pressure"
+            elif ct["tris"] != [[0, k + 1, k + 2] for k in range(len(ct["poly"]) - 2)]:
+                bad = "triangles"
+            if bad:
+                R.failure(f"world-frame details: {bad} is not the image of the contact computed in body 2's frame under frame2world",
+                          dict(c, contact=ct, local=lc), site="ContactSurface._transform_to_world")
+                break
+            if k15.finite(ct["plane"], ct["poly"], ct["force"]):
+                tl = k15.tols_for(ct["t1"], ct["t2"], [1.0], max(1.0, dt["E1"]))
+                cert_exprs.append(k15.cert_expr(ct["t1"], ct["t2"], ct["plane"], ct["poly"], ct["force"], tl))
+                cert_idx.append((i, ct))
+    if cert_exprs:
+        try:
+            vs = cm.coq_eval_lines(PID, k15.CERT_HEADER, cert_exprs, tag="cert", per_file=max(8, len(cert_exprs) // (2 * cm.NCPU) + 1), timeout=1500)
+            stats["details_certificates"] = len(vs)
+            for (i, ct), v in zip(cert_idx, vs):
+                bits = hg.parse_coq_value(v)
+                if not all(bits):
+                    why = [k15.CERT_BITS[j] for j, b in enumerate(bits) if not b]
+                    R.failure(f"poly_cert rejected a world-frame contact of contact_forces(return_details=True): failed {why}",
+                              dict(cases[i], contact=ct), site="ContactSurface.make_details")
+        except RuntimeError as e:
+            R.proof_broken.append(f"checker evaluation failed: {str(e)[:300]}")
     # model runs
     exprs, idx = [], []
     for i, (c, r) in enumerate(zip(cases, res)):
